@@ -1394,4 +1394,5 @@ func main() {
 	out.Emit(auxReexportedHost())
 	out.Emit(auxStartHost())
 	out.Emit(auxLookupImported())
+	out.Emit(auxSiblingInstances())
 }
